@@ -1,10 +1,22 @@
 // Engine A, class "pgm": PGMIndex<K, Epsilon, EpsilonRecursive, Floating> — properties C01, C02, C07.
 #pragma once
 #include "a_common.hpp"
+#include "a_static.hpp"
 #include "pgm/pgm_index.hpp"
 #include <cstring>
 
 namespace ea {
+
+// ---- PGMIndex as a plain static class ---------------------------------------------------------------------------------
+template<typename K_, size_t E, size_t R, typename F>
+struct PgmTraits : TraitsBase<K_, E> {
+    using K = K_;
+    using Index = pgm::PGMIndex<K, E, R, F>;
+    static constexpr unsigned clauses = CL_RANGE | CL_LO_LE_POS | CL_FIRST_OCC | CL_LOWER_BOUND;
+    static Index *build(const std::vector<K> &d) { return new Index(d.begin(), d.end()); }
+    static Approx search(const Index &i, K q) { auto r = i.search(q); return Approx{r.pos, r.lo, r.hi}; }
+    static size_t segments(const Index &i) { return i.segments_count(); }
+};
 
 template<typename K, size_t E, size_t R, typename F>
 struct PgmOpen : pgm::PGMIndex<K, E, R, F> {
@@ -53,7 +65,10 @@ struct PgmClass {
     using Segment = typename Index::Segment;
     static constexpr size_t linear_threshold = 8 * 64 / sizeof(Segment);
 
+    static bool generic_mode(const std::string &prop) { return prop == "C19" || prop == "C20" || prop == "C17"; }
+
     static PlanText gen(const CfgEntry &ce, const GenCtx &g, Stats &st) {
+        if (generic_mode(g.prop)) return StaticClass<PgmTraits<K, E, R, F>>::gen(ce, g, st);
         PlanText p;
         Rng cfg = sim::stream(g.run_seed, "cfg"), work = sim::stream(g.run_seed, "work"), env = sim::stream(g.run_seed, "env");
         p.set("engine", "buildsim");
@@ -74,6 +89,7 @@ struct PgmClass {
     }
 
     static Outcome run(const CfgEntry &ce, const PlanText &p, const RunCtx &rc, Stats &st) {
+        if (generic_mode(rc.prop)) return StaticClass<PgmTraits<K, E, R, F>>::run(ce, p, rc, st);
         Outcome out;
         Trace tr;
         std::vector<K> data = keys_from_plan<K>(p);
